@@ -677,7 +677,9 @@ fn gen_loop(r: &mut Rng, i: usize) -> LoopCase {
     let mut rounds = vec![];
     let mut tokn = 0usize;
     for k in 0..nrounds {
-        let tag = format!("{k}");
+        // now and then a response reuses the ids of an earlier one (call ids, item ids, response id): the same
+        // call id in two responses is two calls, each answered in its own next request
+        let tag = if k > 0 && r.chance(1, 6) { format!("{}", r.below(k as u64)) } else { format!("{k}") };
         let mut mk = |r: &mut Rng, _j: usize| -> (String, String) {
             tokn += 1;
             // provider-chosen function names on and beyond the schema's limits for a function_call item (1..=64
@@ -1364,6 +1366,23 @@ fn corpus_loops() -> Vec<LoopCase> {
             rounds: vec![RoundSpec { mode: 0, events: vec![json!({"type":"response.created","response":{"id":"resp_1"}}), call(0, "fc_1", cid, name, &w("t1"))], done: true, expected: Some(vec![ExpCall { oi: 0, call_id: cid.into(), name: name.into(), args: w("t1") }]), render: 1 }, end.clone()],
         });
     }
+    // the same call id (and item id) completed by two consecutive responses: two calls, two executions, each answered
+    // in its own next request (stateless: the third request carries two outputs for the id)
+    for stateless in [false, true] {
+        v.push(LoopCase {
+            stateless,
+            tool_choice: json!("auto"),
+            choice_spec: Some(None),
+            followup: None,
+            prompt: if stateless { "sameid_stateless".into() } else { "sameid_stateful".into() },
+            thread: false,
+            rounds: vec![
+                RoundSpec { mode: 0, events: vec![json!({"type":"response.created","response":{"id":"resp_1"}}), call(0, "fc_1", "call_1", "write", &w("t1"))], done: true, expected: Some(vec![ExpCall { oi: 0, call_id: "call_1".into(), name: "write".into(), args: w("t1") }]), render: 1 },
+                RoundSpec { mode: 0, events: vec![json!({"type":"response.created","response":{"id":"resp_2"}}), call(0, "fc_1", "call_1", "write", &w("t2"))], done: true, expected: Some(vec![ExpCall { oi: 0, call_id: "call_1".into(), name: "write".into(), args: w("t2") }]), render: 2 },
+                end.clone(),
+            ],
+        });
+    }
     let many: Vec<Value> = std::iter::once(json!({"type":"response.created","response":{"id":"resp_1"}})).chain((0..20).map(|j| call(j, &format!("fc_{j}"), &format!("call_{j}"), "write", &w(&format!("t{j}"))))).collect();
     let many2: Vec<Value> = std::iter::once(json!({"type":"response.created","response":{"id":"resp_2"}})).chain((20..40).map(|j| call(j, &format!("fc_{j}"), &format!("call_{j}"), "write", &w(&format!("t{j}"))))).collect();
     v.push(LoopCase {
@@ -1621,6 +1640,19 @@ fn main() {
         }
         if c.thread {
             res.bump("loop-thread-run");
+        }
+        {
+            // runs in which one call id is completed by two responses that both got a next request
+            let mut seen: BTreeSet<String> = BTreeSet::new();
+            let mut reused = false;
+            for rd in c.rounds.iter().take(o.bodies.len().saturating_sub(1)) {
+                let ids: BTreeSet<String> = rd.expected.iter().flatten().map(|x| x.call_id.clone()).collect();
+                reused |= ids.iter().any(|i| seen.contains(i));
+                seen.extend(ids);
+            }
+            if reused {
+                res.bump("loop-call-id-reused-across-responses");
+            }
         }
         if let Some(k) = o.bodies.len().checked_sub(1) {
             if c.rounds.get(k).map(|rd| rd.mode == 0 && rd.expected.as_ref().map(|x| !x.is_empty()).unwrap_or(false)).unwrap_or(false) {
